@@ -83,6 +83,8 @@ enum Obs {
     Hs(u32),
     He(u32, bool),
     Sup(u8, u32), // supervisor saw event kind (0 started 1 terminated 2 failed) of child key
+    /// a stop hook found its own mailbox still open to new messages (never expected)
+    Open(u8),
 }
 
 impl Obs {
@@ -92,6 +94,7 @@ impl Obs {
             Obs::Hs(m) => format!("h{m}"),
             Obs::He(m, ok) => format!("e{m}{}", if ok { '+' } else { '-' }),
             Obs::Sup(k, c) => format!("S{c}.{k}"),
+            Obs::Open(h) => format!("open{h}"),
         }
     }
 }
@@ -161,12 +164,18 @@ impl Actor for TestActor {
         if self.hooks[1] { Ok(()) } else { Err(2) }
     }
 
-    async fn pre_stop(&self, _m: &Mailbox<Self>, _s: &mut u32) -> Result<(), u32> {
+    async fn pre_stop(&self, m: &Mailbox<Self>, _s: &mut u32) -> Result<(), u32> {
+        if !m.is_closed() {
+            self.log.push(self.id, Obs::Open(2));
+        }
         self.log.push(self.id, Obs::Hook(2, self.hooks[2]));
         if self.hooks[2] { Ok(()) } else { Err(3) }
     }
 
-    async fn post_stop(&self, _m: &Mailbox<Self>, _s: &mut u32) -> Result<(), u32> {
+    async fn post_stop(&self, m: &Mailbox<Self>, _s: &mut u32) -> Result<(), u32> {
+        if !m.is_closed() {
+            self.log.push(self.id, Obs::Open(3));
+        }
         self.log.push(self.id, Obs::Hook(3, self.hooks[3]));
         if self.hooks[3] { Ok(()) } else { Err(4) }
     }
@@ -1547,7 +1556,7 @@ fn run_conc(spec: &ConcSpec) -> Vec<String> {
             .filter(|a| a.supervised && a.fate == 'X')
             .map(|a| 1 + log.of(a.id).contains(&Obs::Hook(1, true)) as usize)
             .sum();
-        let end = Instant::now() + Duration::from_secs(3);
+        let end = Instant::now() + LONG;
         while log.of(1000).len() < expected && Instant::now() < end {
             thread::sleep(Duration::from_micros(200));
         }
@@ -1723,6 +1732,10 @@ fn judge(w: &[&str]) -> (String, Option<(&'static str, String)>) {
         if ok { ("accept".to_string(), None) } else { (format!("reject {why}"), Some((sig, detail))) }
     };
     match w {
+        ["life", _, toks @ ..] if toks.iter().any(|t| t.starts_with("open")) => {
+            // a stop hook saw its own mailbox open
+            verdict(false, "lifecycle", "C19:conc-lifecycle", w.join(" "))
+        }
         ["life", fate, toks @ ..] => {
             let Some(log) = toks.iter().map(|t| parse_obs(t)).collect::<Option<Vec<Obs>>>() else { return bad() };
             let ok = match (life_run(&log), *fate) {
@@ -1880,6 +1893,16 @@ fn exec_conc(case: &Case) -> Exec {
                 }
                 None => ex.out.push("bad-op".into()),
             },
+            Some("judge") => {
+                // differential test of the two acceptors only: no monitor attached
+                ex.tag(format!("judge:{}", w.get(1).copied().unwrap_or("?")));
+                let v = judge(&w[1..]).0;
+                if v != "accept" {
+                    ex.tag("judge:rejected");
+                }
+                ex.nontrivial = true;
+                ex.out.push(v);
+            }
             Some("hist") => {
                 let (v, f) = judge(&w[1..]);
                 ex.tag(format!("hist:{}", w.get(1).copied().unwrap_or("?")));
@@ -2131,15 +2154,132 @@ fn gen_routing(rng: &mut Rng, max_n: usize, samples_above: usize) -> Vec<Case> {
     cases
 }
 
+/// random / mutated histories: the Rust acceptor and the Lean acceptor must give the same verdict on
+/// accepted *and* rejected inputs (no monitor is attached to `judge` lines)
+fn gen_judge(rng: &mut Rng, lines: usize) -> Vec<String> {
+    let mut out = vec![];
+    let ids = |rng: &mut Rng, n: u64, max: u64| -> String {
+        let v: Vec<u32> = (0..n).map(|_| rng.range(1, max) as u32).collect();
+        join_ids(&v)
+    };
+    for _ in 0..lines {
+        match rng.below(6) {
+            0 => {
+                // a valid lifecycle word, then mutated
+                let mut w: Vec<String> = vec![];
+                if rng.chance(1, 8) {
+                    w.push("ps-".into());
+                } else {
+                    w.push("ps+".into());
+                    let run = !rng.chance(1, 6);
+                    if run {
+                        let po = !rng.chance(1, 6);
+                        w.push(format!("po{}", if po { '+' } else { '-' }));
+                        if po {
+                            for i in 0..rng.below(4) {
+                                let ok = !rng.chance(1, 6);
+                                w.push(format!("h{}", i + 1));
+                                w.push(format!("e{}{}", i + 1, if ok { '+' } else { '-' }));
+                                if !ok {
+                                    break;
+                                }
+                            }
+                        }
+                    }
+                    w.push(format!("pr{}", if rng.chance(1, 4) { '-' } else { '+' }));
+                    w.push(format!("pt{}", if rng.chance(1, 4) { '-' } else { '+' }));
+                }
+                for _ in 0..rng.below(3) {
+                    if w.is_empty() {
+                        break;
+                    }
+                    let i = rng.below(w.len() as u64) as usize;
+                    match rng.below(4) {
+                        0 => {
+                            w.remove(i);
+                        }
+                        1 => {
+                            let x = w[i].clone();
+                            w.insert(i, x);
+                        }
+                        2 => {
+                            let j = rng.below(w.len() as u64) as usize;
+                            w.swap(i, j);
+                        }
+                        _ => w[i] = rng.pick(&["h1", "e1+", "e2-", "po+", "pr+", "pt-", "ps+", "open2", "zz", "h", "e+"]).to_string(),
+                    }
+                }
+                if rng.chance(1, 3) {
+                    let k = rng.below(w.len() as u64 + 1) as usize;
+                    w.truncate(k);
+                }
+                out.push(format!("judge life {} {}", rng.pick(&["X", "F", "L", "Q"]), w.join(" ")).trim_end().to_string());
+            }
+            1 => {
+                let n = rng.below(6);
+                let acc: Vec<u32> = (1..=n as u32).collect();
+                // split the accepted ids over 1..3 senders, keep order; handled = prefix, then maybe mutated
+                let k = rng.range(1, 3) as usize;
+                let mut ss: Vec<Vec<u32>> = vec![vec![]; k];
+                for a in &acc {
+                    ss[rng.below(k as u64) as usize].push(*a);
+                }
+                let mut h: Vec<u32> = acc[..rng.below(n + 1) as usize].to_vec();
+                if rng.chance(1, 3) && h.len() >= 2 {
+                    let i = rng.below(h.len() as u64 - 1) as usize;
+                    h.swap(i, i + 1);
+                }
+                if rng.chance(1, 6) {
+                    h.push(rng.range(1, 8) as u32);
+                }
+                let per: Vec<String> = ss.iter().map(|v| join_ids(v)).collect();
+                out.push(format!("judge fifo {} {} {}", rng.pick(&["C", "P", "P", "x"]), join_ids(&h), per.join(";")));
+            }
+            2 => {
+                let n = rng.below(5);
+                out.push(format!("judge once {}", ids(rng, n, 6)));
+                let n = rng.below(3);
+                out.push(format!("judge rejected {}", ids(rng, n, 6)));
+            }
+            3 => {
+                let n = rng.below(4);
+                let h = ids(rng, n, 5);
+                let cs: Vec<String> =
+                    (0..rng.range(1, 4)).map(|_| format!("{}:{}", rng.range(1, 5), rng.pick(&["r", "n", "f", "c", "p", "z"]))).collect();
+                out.push(format!("judge calls {} {h} {}", rng.pick(&["X", "L", "L", "Y"]), cs.join(" ")));
+            }
+            4 => {
+                let ivs: Vec<String> = (0..rng.below(4))
+                    .map(|_| {
+                        let a = rng.below(30);
+                        format!("{a}:{}", a + rng.below(10))
+                    })
+                    .collect();
+                out.push(format!("judge names {}", ivs.join(" ")).trim_end().to_string());
+                out.push(format!("judge reuse {}", rng.pick(&["0", "0", "1", "1000", "x"])));
+            }
+            _ => {
+                let n = rng.below(3);
+                let seen: Vec<u32> = (0..n).map(|_| rng.below(3) as u32).collect();
+                out.push(format!("judge sup {} {} {}", rng.pick(&["0", "1", "2"]), rng.pick(&["S", "E", "N", "Q"]), join_ids(&seen)));
+            }
+        }
+    }
+    out
+}
+
 fn generate(tier: &str, rng: &mut Rng) -> Vec<Case> {
     let thorough = tier == "thorough";
-    let mut cases = if thorough { gen_routing(rng, 5, 1500) } else { gen_routing(rng, 3, 200) };
-    let n_det = if thorough { 5000 } else { 500 };
+    let mut cases = if thorough { gen_routing(rng, 5, 1000) } else { gen_routing(rng, 3, 200) };
+    let n_det = if thorough { 3000 } else { 500 };
     for i in 0..n_det {
         let n_ops = rng.range(6, if i % 5 == 0 { 60 } else { 30 }) as usize;
         cases.push(Case { name: format!("det-{i}"), lines: gen_det(rng, n_ops) });
     }
-    let n_conc = if thorough { 1200 } else { 80 };
+    for i in 0..(if thorough { 200 } else { 30 }) {
+        cases.push(Case { name: format!("judge-{i}"), lines: gen_judge(rng, 40) });
+    }
+    let n_conc = if thorough { 600 } else { 80 };
     for i in 0..n_conc {
         cases.push(gen_conc(rng, i, thorough && i % 4 == 0));
     }
@@ -2147,7 +2287,7 @@ fn generate(tier: &str, rng: &mut Rng) -> Vec<Case> {
 }
 
 fn exec(case: &Case) -> Exec {
-    if case.lines.first().map(|l| l.starts_with("conc ")).unwrap_or(false) {
+    if case.lines.first().map(|l| l.starts_with("conc ") || l.starts_with("judge ")).unwrap_or(false) {
         exec_conc(case)
     } else {
         exec_det(case)
